@@ -73,14 +73,14 @@ impl<K: Elem, V: Elem> Coll for MapC<K, V> {
         std::mem::size_of::<(K, V)>()
     }
     fn with_cap(bh: PlanBH, cap: usize) -> Self {
-        MapC(Map::with_capacity_and_hasher_in(cap, bh, CkAlloc))
+        MapC(Map::with_capacity_and_hasher_in(cap, bh, crate::ckalloc::current()))
     }
     fn new_unallocated(bh: PlanBH, how: u8) -> Self {
         crate::plan::set_current(bh.plan, bh.salt);
         MapC(match how % 3 {
-            0 => Map::with_hasher_in(bh, CkAlloc),
+            0 => Map::with_hasher_in(bh, crate::ckalloc::current()),
             1 => Map::default(),
-            _ => Map::with_capacity_and_hasher_in(0, bh, CkAlloc),
+            _ => Map::with_capacity_and_hasher_in(0, bh, crate::ckalloc::current()),
         })
     }
     fn bh(&self) -> PlanBH {
@@ -169,14 +169,14 @@ impl<T: Elem> Coll for SetC<T> {
         std::mem::size_of::<T>()
     }
     fn with_cap(bh: PlanBH, cap: usize) -> Self {
-        SetC(Set::with_capacity_and_hasher_in(cap, bh, CkAlloc))
+        SetC(Set::with_capacity_and_hasher_in(cap, bh, crate::ckalloc::current()))
     }
     fn new_unallocated(bh: PlanBH, how: u8) -> Self {
         crate::plan::set_current(bh.plan, bh.salt);
         SetC(match how % 3 {
-            0 => Set::with_hasher_in(bh, CkAlloc),
+            0 => Set::with_hasher_in(bh, crate::ckalloc::current()),
             1 => Set::default(),
-            _ => Set::with_capacity_and_hasher_in(0, bh, CkAlloc),
+            _ => Set::with_capacity_and_hasher_in(0, bh, crate::ckalloc::current()),
         })
     }
     fn bh(&self) -> PlanBH {
@@ -263,14 +263,14 @@ impl<E: Elem> Coll for TableC<E> {
         std::mem::size_of::<E>()
     }
     fn with_cap(bh: PlanBH, cap: usize) -> Self {
-        TableC(Table::with_capacity_in(cap, CkAlloc), bh)
+        TableC(Table::with_capacity_in(cap, crate::ckalloc::current()), bh)
     }
     fn new_unallocated(bh: PlanBH, how: u8) -> Self {
         TableC(
             match how % 3 {
-                0 => Table::new_in(CkAlloc),
+                0 => Table::new_in(crate::ckalloc::current()),
                 1 => Table::default(),
-                _ => Table::with_capacity_in(0, CkAlloc),
+                _ => Table::with_capacity_in(0, crate::ckalloc::current()),
             },
             bh,
         )
